@@ -7,7 +7,7 @@ from .. import common as C, explore as X
 PROP = 'C20'
 TEMPLATE_SIGMA = ['{', '}', '[', ']', '!', ':', '.', '0', 'a', 'é']
 FIELD_SIGMA = ['.', '[', ']', '0', '1', 'a', 'é', '-', ' ', '+']
-BOUNDS = {'quick': (6, 6), 'thorough': (7, 7)}
+BOUNDS = {'quick': (6, 6), 'thorough': (8, 8)}
 
 
 def ref_template(t):
